@@ -1,21 +1,50 @@
 import Mhd.Model.SuspTimer
 namespace Mhd.SuspTimer
 
+@[simp] theorem link_now (s : TState) : s.link.now = s.now := by unfold TState.link; split <;> rfl
+@[simp] theorem link_lastAct (s : TState) : s.link.lastAct = s.lastAct := by unfold TState.link; split <;> rfl
+@[simp] theorem link_resumedAt (s : TState) : s.link.resumedAt = s.resumedAt := by unfold TState.link; split <;> rfl
+@[simp] theorem link_suspended (s : TState) : s.link.suspended = s.suspended := by unfold TState.link; split <;> rfl
+@[simp] theorem link_timeout (s : TState) : s.link.timeout = s.timeout := by unfold TState.link; split <;> rfl
+@[simp] theorem link_closedTO (s : TState) : s.link.closedTO = s.closedTO := by unfold TState.link; split <;> rfl
+@[simp] theorem link_dflt (s : TState) : s.link.dflt = s.dflt := by unfold TState.link; split <;> rfl
+@[simp] theorem unlink_now (s : TState) : s.unlink.now = s.now := by unfold TState.unlink; split <;> rfl
+@[simp] theorem unlink_lastAct (s : TState) : s.unlink.lastAct = s.lastAct := by unfold TState.unlink; split <;> rfl
+@[simp] theorem unlink_resumedAt (s : TState) : s.unlink.resumedAt = s.resumedAt := by unfold TState.unlink; split <;> rfl
+@[simp] theorem unlink_suspended (s : TState) : s.unlink.suspended = s.suspended := by unfold TState.unlink; split <;> rfl
+@[simp] theorem unlink_timeout (s : TState) : s.unlink.timeout = s.timeout := by unfold TState.unlink; split <;> rfl
+@[simp] theorem unlink_closedTO (s : TState) : s.unlink.closedTO = s.closedTO := by unfold TState.unlink; split <;> rfl
+@[simp] theorem unlink_dflt (s : TState) : s.unlink.dflt = s.dflt := by unfold TState.unlink; split <;> rfl
+
 /-- reachable-state invariant: the activity stamp is never older than the last resume, and never in the future -/
 structure TInv (s : TState) : Prop where
   fresh : s.suspended = false → s.timeout ≠ 0 → s.resumedAt ≤ s.lastAct
   past : s.lastAct ≤ s.now
   rpast : s.resumedAt ≤ s.now
 
+theorem TInv_setTO (g : TGuards) (s0 : TState) (ms : Nat) (f1 : s0.suspended = false → s0.resumedAt ≤ s0.lastAct)
+    (f2 : s0.lastAct ≤ s0.now) (f3 : s0.resumedAt ≤ s0.now) : TInv (setTO g s0 ms) := by
+  unfold setTO
+  by_cases hs : s0.suspended = true
+  · rw [if_pos hs]
+    by_cases hg : g.setSkipsSusp = true
+    · rw [if_pos hg]; exact ⟨fun hx => by simp [hs] at hx, f2, f3⟩
+    · rw [if_neg hg]; exact ⟨fun hx => by simp [hs] at hx, by simpa using f2, by simpa using f3⟩
+  · rw [if_neg hs]
+    exact ⟨fun _ _ => by simpa using f1 (by simpa using hs), by simpa using f2, by simpa using f3⟩
+
 theorem step_inv (g : TGuards) (hg : g.Sound) (s : TState) (h : TInv s) (op : TOp) : TInv (step g s op) := by
-  obtain ⟨g1, g2, g3, g4⟩ := hg
+  obtain ⟨g1, g2, g3, g4, _⟩ := hg
   obtain ⟨h1, h2, h3⟩ := h
   cases op with
   | tick ms => exact ⟨h1, Nat.le_trans h2 (Nat.le_add_right _ _), Nat.le_trans h3 (Nat.le_add_right _ _)⟩
   | setTimeout ms =>
-    simp only [step]; split
-    · exact ⟨h1, h2, h3⟩
-    · exact ⟨fun _ _ => h3, Nat.le_refl _, h3⟩
+    simp only [step]
+    by_cases hz : s.timeout = 0
+    · simp only [hz, if_true]
+      exact TInv_setTO g _ ms (fun _ => h3) (Nat.le_refl _) h3
+    · simp only [hz, if_false]
+      exact TInv_setTO g s ms (fun hs => h1 hs hz) h2 h3
   | activity =>
     simp only [step]; split
     · exact ⟨h1, h2, h3⟩
@@ -31,20 +60,19 @@ theorem step_inv (g : TGuards) (hg : g.Sound) (s : TState) (h : TInv s) (op : TO
   | suspend =>
     simp only [step]; split
     · exact ⟨h1, h2, h3⟩
-    · exact ⟨fun hx => absurd hx (by simp), h2, h3⟩
+    · exact ⟨fun hx => absurd hx (by simp), by simpa using h2, by simpa using h3⟩
   | resume =>
     simp only [step]; split
     · exact ⟨h1, h2, h3⟩
-    · refine ⟨fun _ hz => ?_, ?_, Nat.le_refl _⟩
-      · show s.now ≤ (if s.timeout ≠ 0 ∧ (if s.inNormal = true then g.restartNormal else g.restartManual) = true then s.now else s.lastAct)
+    · refine ⟨fun _ hz => ?_, ?_, by simp⟩
+      · have hz' : s.timeout ≠ 0 := by simpa using hz
         have : (if s.inNormal = true then g.restartNormal else g.restartManual) = true := by split <;> assumption
-        rw [if_pos ⟨hz, this⟩]; exact Nat.le_refl _
-      · show (if s.timeout ≠ 0 ∧ (if s.inNormal = true then g.restartNormal else g.restartManual) = true then s.now else s.lastAct) ≤ s.now
-        have aux : ∀ (p : Prop) [Decidable p], (if p then s.now else s.lastAct) ≤ s.now := by
+        simp [hz', this]
+      · have aux : ∀ (p : Prop) [Decidable p], (if p then s.now else s.lastAct) ≤ s.now := by
           intro p _; split
           · exact Nat.le_refl _
           · exact h2
-        exact aux _
+        simpa using aux _
 
 theorem run_inv (g : TGuards) (hg : g.Sound) : ∀ (ops : List TOp) (s : TState), TInv s → TInv (run g s ops) := by
   intro ops; induction ops with
@@ -52,13 +80,100 @@ theorem run_inv (g : TGuards) (hg : g.Sound) : ∀ (ops : List TOp) (s : TState)
   | cons op r ih => intro s h; exact ih _ (step_inv g hg s h op)
 
 /-- a start state: clock `t0`, daemon default `dflt`, the connection begins with the default timeout -/
-def TState.start (t0 dflt : Nat) : TState := { now := t0, dflt := dflt, timeout := dflt, lastAct := t0, resumedAt := t0 }
+def TState.start (t0 dflt : Nat) : TState :=
+  { now := t0, dflt := dflt, timeout := dflt, lastAct := t0, resumedAt := t0, cntNormal := 1 }
 
 theorem start_inv (t0 dflt : Nat) : TInv (TState.start t0 dflt) := ⟨fun _ _ => Nat.le_refl _, Nat.le_refl _, Nat.le_refl _⟩
 
+/-! ### the two timeout lists -/
+
+/-- a suspended connection is linked into no timeout list; any other connection into exactly one, exactly
+    once: the default-timeout list iff its timeout equals the daemon default -/
+def LInv (s : TState) : Prop :=
+  (s.suspended = true → s.cntNormal = 0 ∧ s.cntManual = 0) ∧
+  (s.suspended = false → (s.inNormal = true → s.cntNormal = 1 ∧ s.cntManual = 0) ∧
+                          (s.inNormal = false → s.cntNormal = 0 ∧ s.cntManual = 1))
+
+theorem LInv_link (s : TState) (h : s.cntNormal = 0 ∧ s.cntManual = 0) (hs : s.suspended = false) : LInv s.link := by
+  unfold TState.link LInv
+  by_cases hn : s.inNormal = true
+  · simp [hn, hs, h.1, h.2, TState.inNormal] at *; simp [hn]
+  · simp [hn, hs, h.1, h.2, TState.inNormal] at *; simp [hn]
+
+theorem unlink_counts (s : TState) (h : LInv s) (hs : s.suspended = false) : s.unlink.cntNormal = 0 ∧ s.unlink.cntManual = 0 := by
+  unfold TState.unlink
+  have a := h.2 hs
+  by_cases hn : s.inNormal = true
+  · have := a.1 hn; simp [hn, this.1, this.2]
+  · have hn' : s.inNormal = false := by simpa using hn
+    have := a.2 hn'; simp [hn', this.1, this.2]
+
+theorem LInv_setTO (g : TGuards) (hg : g.setSkipsSusp = true) (s0 : TState) (ms : Nat) (h : LInv s0) : LInv (setTO g s0 ms) := by
+  unfold setTO
+  by_cases hs : s0.suspended = true
+  · rw [if_pos hs, if_pos hg]
+    exact ⟨fun _ => h.1 hs, fun hx => by simp [hs] at hx⟩
+  · rw [if_neg hs]
+    have hs' : s0.suspended = false := by simpa using hs
+    have u := unlink_counts s0 h hs'
+    exact LInv_link { s0.unlink with timeout := ms } u (by simpa using hs')
+
+theorem step_linv (g : TGuards) (hg : g.Sound) (s : TState) (h : LInv s) (op : TOp) : LInv (step g s op) := by
+  obtain ⟨_, _, _, _, g5⟩ := hg
+  cases op with
+  | tick ms => exact h
+  | setTimeout ms =>
+    simp only [step]
+    by_cases hz : s.timeout = 0
+    · simp only [hz, if_true]; exact LInv_setTO g g5 _ ms (by simpa [LInv, TState.inNormal, hz] using h)
+    · simp only [hz, if_false]; exact LInv_setTO g g5 s ms h
+  | activity =>
+    simp only [step]; split
+    · exact h
+    · split
+      · exact h
+      · simpa [LInv, TState.inNormal] using h
+  | idle =>
+    simp only [step]; split
+    · exact h
+    · split
+      · exact h
+      · split
+        · simpa [LInv, TState.inNormal] using h
+        · exact h
+  | suspend =>
+    simp only [step]; split
+    · exact h
+    · next hc =>
+      have hs' : s.suspended = false := by
+        simp only [Bool.or_eq_true, not_or, Bool.not_eq_true] at hc; exact hc.2
+      have u := unlink_counts s h hs'
+      exact ⟨fun _ => u, fun hx => by simp at hx⟩
+  | resume =>
+    simp only [step]; split
+    · exact h
+    · next hc =>
+      have hs : s.suspended = true := by simpa using hc
+      exact LInv_link _ (h.1 hs) rfl
+
+theorem run_linv (g : TGuards) (hg : g.Sound) : ∀ (ops : List TOp) (s : TState), LInv s → LInv (run g s ops) := by
+  intro ops; induction ops with
+  | nil => intro s h; exact h
+  | cons op r ih => intro s h; exact ih _ (step_linv g hg s h op)
+
+theorem start_linv (t0 dflt : Nat) : LInv (TState.start t0 dflt) := by
+  simp [LInv, TState.start, TState.inNormal]
+
+/-- MHD_set_connection_option (TIMEOUT) on a suspended connection records the value and touches no list -/
+theorem setTimeout_suspended_counts (g : TGuards) (hg : g.setSkipsSusp = true) (s : TState) (hs : s.suspended = true) (ms : Nat) :
+    (step g s (.setTimeout ms)).cntNormal = s.cntNormal ∧ (step g s (.setTimeout ms)).cntManual = s.cntManual ∧
+    (step g s (.setTimeout ms)).timeout = ms ∧ (step g s (.setTimeout ms)).suspended = true := by
+  simp only [step, setTO]
+  by_cases hz : s.timeout = 0 <;> simp [hz, hs, hg]
+
 theorem resume_restarts (g : TGuards) (hg : g.Sound) (s : TState) (hs : s.suspended = true) (ht : s.timeout ≠ 0) :
     (step g s .resume).lastAct = s.now ∧ (step g s .resume).suspended = false ∧ (step g s .resume).resumedAt = s.now := by
-  obtain ⟨_, _, g3, g4⟩ := hg
+  obtain ⟨_, _, g3, g4, _⟩ := hg
   have : (if s.inNormal = true then g.restartNormal else g.restartManual) = true := by split <;> assumption
   simp [step, hs, ht, this]
 
